@@ -71,11 +71,12 @@ Generated(nh0) ==
                        !.nextId = Len(nodes), !.exists = TRUE, !.hasModel = TRUE, !.hasLang = TRUE]
 
 (* ----------------------- effects of the public calls --------------------- *)
-DoAddNode(s, h, kind, newId) ==
+DoAddNodeD(s, h, kind, newId, dist) ==
   LET n == [h |-> h, asset |-> 0, step |-> "x", kind |-> kind, st |-> IF kind = "defense" THEN 0 ELSE IF kind \in {"exist", "notExist"} THEN 10 ELSE -1,
-            dist |-> FALSE, ttc |-> 0, tags |-> {}, extras |-> 0, id |-> newId, V |-> TRUE, N |-> TRUE] IN
+            dist |-> dist, ttc |-> 0, tags |-> {}, extras |-> 0, id |-> newId, V |-> TRUE, N |-> TRUE] IN
   [s EXCEPT !.nodes = Append(@, n), !.byId = @ \cup {<<newId, h>>}, !.byName = @ \cup {<<NameOf(n), h>>},
             !.nextId = IF newId + 1 > @ THEN newId + 1 ELSE @]
+DoAddNode(s, h, kind, newId) == DoAddNodeD(s, h, kind, newId, FALSE)
 DoLink(s, p, c) == [s EXCEPT !.ch = @ \cup {<<p, c>>}, !.pa = @ \cup {<<p, c>>}]
 \* removing a set of nodes: gone from the list, from both edge relations, from both indexes,
 \* from every attacker's reached / entry lists and from the node-side relation
@@ -149,12 +150,13 @@ Regenerate(g) ==
 Sibling ==
   /\ vAssets # <<>> /\ Generable /\ gS["main"].exists /\ gS["main"].hasModel /\ gAct.op # "Sibling"
   /\ gAct' = [op |-> "Sibling", g |-> "main", res |-> "ok"] /\ UNCHANGED <<mvars, gS, gNextH>>
-AddNode(g, kind, reqId) ==
-  /\ gS[g].exists /\ Len(gS[g].nodes) < MaxNodes
+\* dist: the added step carries a TTC probability distribution (only attack steps do)
+AddNode(g, kind, reqId, dist) ==
+  /\ gS[g].exists /\ Len(gS[g].nodes) < MaxNodes /\ (dist => kind \in {"or", "and"})
   /\ IF reqId # NoId /\ reqId \in NodeIds(gS[g])
-     THEN Set(g, gS[g], [op |-> "AddNode", g |-> g, h |-> gNextH, kind |-> kind, reqId |-> reqId, res |-> "exc"])
-     ELSE Set(g, DoAddNode(gS[g], gNextH, kind, IF reqId # NoId THEN reqId ELSE gS[g].nextId),
-              [op |-> "AddNode", g |-> g, h |-> gNextH, kind |-> kind, reqId |-> reqId, res |-> "ok"])
+     THEN Set(g, gS[g], [op |-> "AddNode", g |-> g, h |-> gNextH, kind |-> kind, reqId |-> reqId, res |-> "exc", dist |-> dist])
+     ELSE Set(g, DoAddNodeD(gS[g], gNextH, kind, IF reqId # NoId THEN reqId ELSE gS[g].nextId, dist),
+              [op |-> "AddNode", g |-> g, h |-> gNextH, kind |-> kind, reqId |-> reqId, res |-> "ok", dist |-> dist])
   /\ BumpG(1)
 LinkNodes(g, p, c) ==
   /\ gS[g].exists /\ p \in NodeHs(gS[g]) /\ c \in NodeHs(gS[g]) /\ <<p, c>> \notin gS[g].ch
@@ -236,7 +238,7 @@ GraphNext ==
   \/ On("Generate") /\ \E g \in {"main"} : Generate(g)
   \/ On("Regenerate") /\ Regenerate("main")
   \/ On("Sibling") /\ Sibling
-  \/ On("AddNode") /\ \E g \in Slots, k \in ExtraKinds, i \in GIdPool : AddNode(g, k, i)
+  \/ On("AddNode") /\ \E g \in Slots, k \in ExtraKinds, i \in GIdPool, ds \in BOOLEAN : AddNode(g, k, i, ds)
   \/ On("Link") /\ \E g \in Slots : \E p, c \in NodeHs(gS[g]) : LinkNodes(g, p, c)
   \/ On("RemoveNode") /\ \E g \in Slots : \E h \in NodeHs(gS[g]) : RemoveNode(g, h)
   \/ On("Prune") /\ \E g \in Slots : Prune(g)
